@@ -12,6 +12,18 @@ CHECKS = {
  "C11": ("exploration", "exhaustive enumeration of OT lengths x choice patterns x session orders on the real KOS/ALSZ/Chou-Orlandi code",
          "Every length (thorough: 1..4096; quick: 1..320 plus all 8k/128k boundaries) with constant, alternating and tape-derived choice vectors, constant and index-dependent correlations and both session orders is run through the real kos_ot_sender/kos_ot_receiver pair; every index is compared with x0 xor b*delta.",
          "entry points are the crate's own __bench re-exports; value domain of correlations is sampled by tape", "4.C11", "E1"),
+ "C05": ("exploration", "exhaustive role enumeration on the real mpc with a monitor over schema-decoded recorded traffic",
+         "Every p_eval x every non-empty p_out for n=2..4 on circuits with register reuse/aliasing, outputs that are inputs and duplicated outputs; every message addressed to a party after its input processing is classified and decoded: nothing for non-output parties, only 'output wire shares' / evaluator 'lambda' with Some exactly at output registers for output parties.",
+         "stage boundary = completion of the recipient's last input-stage operation on the harness's global logical clock; message labels are the engine's own phase strings", "4.C05", "E1+E3"),
+ "C09": ("exploration", "exhaustive enumeration of inputs and an enumerated tape set per public configuration; comparison of recorded per-party channel-operation sequences",
+         "For every public configuration, every input assignment under one tape and a set of tapes under one assignment are executed; per party the ordered list of (peer, direction, label, length, poll index, completion rank) must be identical.",
+         "default schedule; coins come from the harness's deterministic entropy backend (tapes are enumerated integers)", "4.C09", "E1"),
+ "C12": ("model_checking", "stateless model checking of the real engine: deviation-bounded exhaustive schedule exploration (swap/starve) with state-hash pruning under an owned executor and channel",
+         "All schedules with at most k deviations from the default policy (k per configuration in the evidence), capacities 1/2/unbounded, n=2..4, are executed on the real code; each must terminate with the clear-text result, never have two sends or receives outstanding to one peer, and respect commit-before-reveal ordering. Deadlock detection is exact (no enabled action).",
+         "bounded number of deviations; root future polled only when woken; extracted-skeleton tier (E5) not yet built", "4.C12", "E1"),
+ "C18": ("exploration", "exhaustive enumeration of an invalid-argument menu (one argument at a time, each recipient pattern) on the real mpc, counting channel operations",
+         "Every value of every argument's invalid menu (party indices at and far beyond the boundary, output sets empty / out of range / repeated / unsorted, wrong input lengths, circuits failing validation, inconsistent counters, misplaced or surplus Input instructions) is passed to one party at a time and to all parties; the call must return Err with zero channel operations (or, for repeated output indices, behave as a set), and never panic.",
+         "and_ops values that would make the engine allocate terabytes are not tried in-process", "4.C18", "E1+E3"),
 }
 
 NOT_YET = "check not built yet (construction in progress, see DESIGN.md section 8)"
